@@ -587,3 +587,55 @@ func (a *Analyzer) AccumulatorStartsEmpty(fn string) []RuleResult {
 	}
 	return out
 }
+
+// RefCacheScope: a cache keyed by the raw $ref string is only meaningful within
+// one schema file ('#/$defs/X' names different definitions in different files):
+// every map written under a key loaded from the $ref field must be a field of
+// the per-file generator object (allocated in newSchemaGenerator), or the loader
+// cache (whose key is decided by B-MEMO).
+func (a *Analyzer) RefCacheScope() []RuleResult {
+	var out []RuleResult
+	perFile := map[string]bool{} // struct type names allocated in newSchemaGenerator
+	if f := a.P.Func("pkg/generator.newSchemaGenerator"); f != nil {
+		for _, b := range f.Blocks {
+			for _, in := range b.Instrs {
+				if al, ok := in.(*ssa.Alloc); ok {
+					perFile[al.Type().String()] = true
+				}
+			}
+		}
+	}
+	n := 0
+	for _, f := range a.P.Funcs {
+		for _, b := range f.Blocks {
+			for _, in := range b.Instrs {
+				mu, ok := in.(*ssa.MapUpdate)
+				if !ok {
+					continue
+				}
+				kl, ok := mu.Key.(*ssa.UnOp)
+				if !ok || kl.Op != token.MUL {
+					continue
+				}
+				kf, ok := kl.X.(*ssa.FieldAddr)
+				if !ok || fieldAddrTag(kf) != "$ref" {
+					continue
+				}
+				n++
+				ml, ok := mu.Map.(*ssa.UnOp)
+				owner := "?"
+				okScope := false
+				if ok && ml.Op == token.MUL {
+					if mf, ok := ml.X.(*ssa.FieldAddr); ok {
+						owner = mf.X.Type().String()
+						okScope = perFile[owner]
+					}
+				}
+				out = append(out, RuleResult{"B-REFCACHE", a.P.FuncName(f), "map keyed by the raw $ref belongs to the per-file generator", a.P.InstrPos(mu), okScope,
+					"a '#/...' reference means a different definition in every file; the cache written here lives in " + owner})
+			}
+		}
+	}
+	out = append(out, RuleResult{"B-REFCACHE", "(module)", "caches keyed by raw $ref", "", n >= 1, fmt.Sprintf("%d write site(s)", n)})
+	return out
+}
